@@ -23,10 +23,12 @@ def key_fn(case, obs, verdict):
         return "%s:last-entry-empty-body-unterminated:entry-dropped:%s" % (f[0], status)
     kind = "count" if nd_want != nd_got else "content"
     # round-5 dimensions of the case: instance schedule (deliveries materialised after later Acquires),
-    # lines longer than the 4 KiB bufio buffer
+    # lines longer than the 4 KiB bufio buffer; round 6: configured default headers
     dims = ""
     if len(f) > 1 and "@" in f[1]:
         dims += "+sched"
+    if len(f) > 1 and "^" in f[1]:
+        dims += "+cfg"      # provider configured with default headers
     if any(t[:2] in ("R:", "H:") and len(t.split(":")) > 2 and (len(t.split(":")[1]) + len(t.split(":")[2])) // 2 > 4000 for t in f[4:]):
         dims += "+longline"
     nreq = sum(1 for t in f[4:] if t[:2] in ("R:", "E:"))
